@@ -1,5 +1,202 @@
-use crate::util::Args;
-pub fn cmd_probe(_a: &Args) -> i32 {
-    eprintln!("probe: not implemented yet");
-    2
+//! PROBE: one-shot checks of once-per-process state (C09 default capacity). Each mode must be run
+//! in a fresh process; the orchestrator does that.
+//!   --mode default        spawn() with nothing configured: measured bound must be 32
+//!   --mode set --n N      8 racing threads call set_default_mailbox_capacity: exactly one Ok; bound == winner
+//!   --mode spawn-then-set spawn() first, then configure: the first configuration must succeed and apply
+//!   --mode zero           capacity 0 is rejected everywhere
+
+use crate::util::*;
+use rsactor::{Actor, ActorRef, Message};
+use std::sync::Arc;
+use std::time::Duration;
+
+struct G {
+    gate: Arc<tokio::sync::Semaphore>,
+}
+struct Hold;
+struct Fill;
+impl Actor for G {
+    type Args = Arc<tokio::sync::Semaphore>;
+    type Error = String;
+    async fn on_start(g: Self::Args, _: &ActorRef<Self>) -> Result<Self, String> {
+        Ok(G { gate: g })
+    }
+}
+impl Message<Hold> for G {
+    type Reply = ();
+    async fn handle(&mut self, _: Hold, _: &ActorRef<Self>) {
+        if let Ok(p) = self.gate.acquire().await {
+            p.forget();
+        }
+    }
+}
+impl Message<Fill> for G {
+    type Reply = ();
+    async fn handle(&mut self, _: Fill, _: &ActorRef<Self>) {}
+}
+
+/// Measure how many tells a `spawn()`ed actor accepts while its handler is held: that is its mailbox bound.
+async fn measure_default_bound() -> usize {
+    let gate = Arc::new(tokio::sync::Semaphore::new(0));
+    let (a, jh) = rsactor::spawn::<G>(gate.clone());
+    a.tell(Hold).await.unwrap();
+    // let the actor take the Hold message
+    for _ in 0..50 {
+        tokio::task::yield_now().await;
+    }
+    tokio::time::sleep(Duration::from_millis(20)).await;
+    let mut accepted = 0usize;
+    loop {
+        match tokio::time::timeout(Duration::from_millis(100), a.tell(Fill)).await {
+            Ok(Ok(())) => accepted += 1,
+            _ => break,
+        }
+        if accepted > 100_000 {
+            break;
+        }
+    }
+    gate.add_permits(1 << 20);
+    let _ = a.stop().await;
+    let _ = jh.await;
+    accepted
+}
+
+pub fn cmd_probe(a: &Args) -> i32 {
+    crate::sa::install_panic_hook();
+    let mode = a.str("mode", "default");
+    let rt = tokio::runtime::Builder::new_multi_thread().worker_threads(2).enable_time().build().unwrap();
+    let mut viol: Vec<String> = vec![];
+    let mut obl = 0u64;
+    let mut detail = String::new();
+    match mode.as_str() {
+        "default" => {
+            let b = rt.block_on(measure_default_bound());
+            obl += 1;
+            detail = format!("measured bound {b}");
+            if b != 32 {
+                viol.push(format!("spawn() without configuration accepted {b} messages while the handler was held; documented default capacity is 32"));
+            }
+            if rsactor::DEFAULT_MAILBOX_CAPACITY != 32 {
+                viol.push(format!("DEFAULT_MAILBOX_CAPACITY = {}", rsactor::DEFAULT_MAILBOX_CAPACITY));
+            }
+        }
+        "set" => {
+            let n = a.u64("n", 5) as usize;
+            let barrier = Arc::new(std::sync::Barrier::new(8));
+            let mut ths = vec![];
+            for k in 0..8usize {
+                let b = barrier.clone();
+                ths.push(std::thread::spawn(move || {
+                    b.wait();
+                    (n + k, rsactor::set_default_mailbox_capacity(n + k).is_ok())
+                }));
+            }
+            let res: Vec<(usize, bool)> = ths.into_iter().map(|t| t.join().unwrap()).collect();
+            let winners: Vec<usize> = res.iter().filter(|r| r.1).map(|r| r.0).collect();
+            obl += 3;
+            if winners.len() != 1 {
+                viol.push(format!("{} of 8 racing set_default_mailbox_capacity calls succeeded: {:?}", winners.len(), res));
+            }
+            if rsactor::set_default_mailbox_capacity(n + 100).is_ok() {
+                viol.push("a later set_default_mailbox_capacity call succeeded although the default was already configured".into());
+            }
+            let b = rt.block_on(measure_default_bound());
+            detail = format!("winners {:?}, measured bound {b}", winners);
+            if winners.len() == 1 && b != winners[0] {
+                viol.push(format!("configured default capacity {} but spawn() accepted {b} messages while the handler was held", winners[0]));
+            }
+        }
+        "spawn-then-set" => {
+            let n = a.u64("n", 3) as usize;
+            let b0 = rt.block_on(measure_default_bound());
+            obl += 3;
+            if b0 != 32 {
+                viol.push(format!("unconfigured bound {b0} != 32"));
+            }
+            match rsactor::set_default_mailbox_capacity(n) {
+                Ok(()) => {}
+                Err(e) => viol.push(format!("the first set_default_mailbox_capacity({n}) of the process failed after an earlier spawn(): {e}")),
+            }
+            let b1 = rt.block_on(measure_default_bound());
+            detail = format!("bound before {b0}, after set({n}) {b1}");
+            if b1 != n {
+                viol.push(format!("after set_default_mailbox_capacity({n}) spawn() accepted {b1} messages while the handler was held"));
+            }
+            if rsactor::set_default_mailbox_capacity(n + 1).is_ok() {
+                viol.push("second configuration of the default capacity succeeded".into());
+            }
+        }
+        "zero" => {
+            obl += 3;
+            if rsactor::set_default_mailbox_capacity(0).is_ok() {
+                viol.push("set_default_mailbox_capacity(0) succeeded".into());
+            }
+            // a rejected zero must not consume the one allowed configuration
+            if rsactor::set_default_mailbox_capacity(4).is_err() {
+                viol.push("set_default_mailbox_capacity(4) failed after a rejected set(0)".into());
+            }
+            let r = rt.block_on(async {
+                let gate = Arc::new(tokio::sync::Semaphore::new(0));
+                tokio::spawn(async move {
+                    let _ = rsactor::spawn_with_mailbox_capacity::<G>(gate, 0);
+                })
+                .await
+            });
+            detail = format!("spawn_with_mailbox_capacity(_, 0) -> {:?}", r.as_ref().map(|_| "returned").map_err(|e| e.is_panic()));
+            if r.is_ok() {
+                viol.push("spawn_with_mailbox_capacity(_, 0) did not reject capacity 0".into());
+            }
+            // explicit capacities are hard bounds too
+            for cap in [1usize, 2, 7] {
+                let gate = Arc::new(tokio::sync::Semaphore::new(0));
+                let got = rt.block_on(async {
+                    let (a, jh) = rsactor::spawn_with_mailbox_capacity::<G>(gate.clone(), cap);
+                    a.tell(Hold).await.unwrap();
+                    tokio::time::sleep(Duration::from_millis(20)).await;
+                    let mut acc = 0;
+                    while let Ok(Ok(())) = tokio::time::timeout(Duration::from_millis(60), a.tell(Fill)).await {
+                        acc += 1;
+                        if acc > 1000 {
+                            break;
+                        }
+                    }
+                    gate.add_permits(1 << 20);
+                    let _ = a.kill();
+                    let _ = jh.await;
+                    acc
+                });
+                obl += 1;
+                if got != cap {
+                    viol.push(format!("spawn_with_mailbox_capacity(_, {cap}) accepted {got} messages while the handler was held"));
+                }
+            }
+        }
+        other => {
+            eprintln!("unknown probe mode {other}");
+            return 2;
+        }
+    }
+    let vj: Vec<String> = viol
+        .iter()
+        .map(|m| JObj::new().s("prop", "C09").s("clause", "C09.config").s("msg", m).s("profile", &format!("probe:{mode}")).n("seed", 0).n("pert", 0).b("erased", false).build())
+        .collect();
+    println!(
+        "{}",
+        JObj::new()
+            .s("engine", "probe")
+            .s("features", &crate::features_label())
+            .n("scenarios", 1)
+            .n("events", obl)
+            .raw("obl", &format!("{{\"C09.config\":{}}}", obl))
+            .raw("nontrivial", "{\"C09\":1}")
+            .raw("hashes", &jarr(&[format!("{}", mix(mode.len() as u64, a.u64("n", 0)))]))
+            .raw("viol", &jarr(&vj))
+            .raw("samples", &jarr(&[JObj::new().s("engine", "probe").s("mode", &mode).s("observed", &detail).build()]))
+            .build()
+    );
+    if viol.is_empty() {
+        0
+    } else {
+        1
+    }
 }
